@@ -181,10 +181,12 @@ def random_options(r, B, conv, force=None):
     spread = B.nbg >= 2 and r.random() < 0.4 and o.rb_norm is not False
     if force.get("bref_kind") == "grid":
         spread = False
+    if force.get("bref_kind") == "spread" and o.rb_norm is not False:
+        spread = True
     o.gref = int(force.get("gref", r.integers(0, B.nbg)))
     if spread:
         o.bref_kind = "spread"
-        o.bref = _spread_bref(r, B)
+        o.bref = _spread_bref(r, B, force.get("exclude_grids", ()))
         if o.bref is None:
             spread = False
     if not spread:
@@ -219,7 +221,7 @@ def random_options(r, B, conv, force=None):
     return o
 
 
-def _spread_bref(r, B):
+def _spread_bref(r, B, exclude_grids=()):
     """6 boundary DOF over >= 2 grids that restrain rigid motion statically determinately
     and well conditioned (3-2-1 like).  Judged on the truth geometry."""
     ref = B.mdl.xyz[B.bnodes].mean(axis=0)
@@ -228,7 +230,7 @@ def _spread_bref(r, B):
     sc = np.r_[1, 1, 1, D, D, D]
     for _ in range(300):
         pick = np.sort(r.choice(B.nb, 6, replace=False))
-        if len(set(pick // 6)) < 2:
+        if len(set(pick // 6)) < 2 or set(pick // 6) & set(exclude_grids):
             continue
         # prefer translations (rotational reference DOF rely on joint rotations only)
         N = RBt[pick] / sc
@@ -932,9 +934,17 @@ def degenerate(sh, g, B, P, sigA, base, r, kind):
                B.layout_kind)
     uset2 = make_uset(B2, [False] * B2.nbg)
     perm = _perm(r, B2.nbg, "sorted" if r.random() < 0.5 else "reversed")
-    o = random_options(r, B2, None if r.random() < 0.6 else P.conv,
-                       {"perm": perm, "bref_kind": "grid",
-                        "gref": int(r.integers(0, B.nbg)), "reorder": True})
+    force = {"perm": perm, "bref_kind": "grid", "gref": int(r.integers(0, B.nbg)),
+             "reorder": True}
+    if kind == "null" and B2.nbg >= 3 and (g // 4) % 2 == 0:
+        # the grid whose rotations carry no stiffness (trimmed by the stiffness check)
+        # sits BETWEEN the grids that hold the reference DOF
+        perm = list(range(B2.nbg))
+        perm[1], perm[-1] = perm[-1], perm[1]
+        force = {"perm": perm, "bref_kind": "spread", "exclude_grids": (B2.nbg - 1,),
+                 "gref": int(r.integers(0, B.nbg)), "reorder": True}
+        sh.count("cell:deg-null:trimmed-dof-between-reference-dof")
+    o = random_options(r, B2, None if r.random() < 0.6 else P.conv, force)
     o.em_filt = 0
     T = truth(B2, o)
     case = dict(base, call="deg-" + kind)
